@@ -291,9 +291,11 @@ class GriffeLoader:
             module.exports = expanded
 
         # Make sure to expand exports in all modules.
-        for submodule in module.modules.values():
-            if not submodule.is_alias and submodule.path not in seen:
-                self.expand_exports(submodule, seen)
+        # Iterate on declared members directly: the `modules` property reads the kind
+        # of every member, which resolves aliases before wildcard imports are expanded.
+        for submodule in module.members.values():
+            if not submodule.is_alias and submodule.is_module and submodule.path not in seen:
+                self.expand_exports(submodule, seen)  # type: ignore[arg-type]
 
     def expand_wildcards(
         self,
